@@ -19,5 +19,8 @@ open Martian.Props.C19
 #print axioms messageFrames_valid
 #print axioms logged_message_roundtrip
 #print axioms nobody_request_is_empty_body
+#print axioms retaining_writer_sees_written
+#print axioms subscriber_stream_roundtrip
+#print axioms pooled_buffers_counterexample
 #print axioms exA
 #print axioms exB
